@@ -1,6 +1,9 @@
 use crate::paging::Paging;
 use crate::topics::paging::TopicsPage;
 use crate::topics::*;
+#[cfg(deltio_verif)]
+use crate::verif::RwLock;
+#[cfg(not(deltio_verif))]
 use parking_lot::RwLock;
 use std::collections::hash_map::Entry;
 use std::collections::HashMap;
